@@ -291,6 +291,14 @@ func c09Strata() []*gast.Grammar {
 		mk(r("S", gast.Star(gast.C(gast.L("k"), gast.Cl(&gast.ClassSpec{UClasses: []string{"Ll"}, Inverted: true}), gast.L("é"))))),
 		mk(r("S", gast.Star(gast.C(gast.Li("X"), gast.Cl(&gast.ClassSpec{Chars: []rune("x"), Ranges: [][2]rune{{'a', 'w'}}, Inverted: true, IgnoreCase: true}))))),
 		mk(r("S", gast.Star(gast.C(gast.Cl(&gast.ClassSpec{Ranges: [][2]rune{{'0', '9'}}, Inverted: true}), gast.L("5"), inv("xyz"), gast.L("y"))))),
+		// one-rune literals that mean something inside a class, side by side in a choice
+		mk(r("S", gast.Star(gast.C(gast.L("^"), gast.L("*"), gast.L("a")))), r("T", gast.Star(gast.C(gast.L("\\"), gast.L("/"))))),
+		mk(r("S", gast.Star(gast.C(gast.L("]"), gast.L("x"), gast.L("-"), gast.L("z"), gast.L("[")))), r("T", gast.Star(gast.C(gast.L("a"), gast.L("-"), gast.L("c"), gast.L("\\"), gast.L("n"))))),
+		mk(r("S", gast.Star(gast.C(gast.Li("^"), gast.Li("k"), gast.L("\""), gast.L("'"), gast.L("\n"), gast.L("\t"))))),
+		// an outer recovery expression that throws a label only the inner operator lists (it runs at
+		// the throw position, while the inner handler is still in force)
+		mk(r("Stmt", gast.S(gast.Rec(gast.Ref("Item"), gast.Ref("RecA"), "L1"), gast.Star(gast.Dot()))), r("Item", gast.Rec(gast.C(gast.L("x"), gast.Thr("L1")), gast.Ref("RecB"), "L2")),
+			r("RecA", gast.C(act(gast.L("?"), 1), gast.Thr("L2"))), r("RecB", act(gast.Dot(), 2))),
 		// one host references a label-binding leaf rule both labelled and bare
 		mk(r("S", gast.S(gast.Ref("Pair"), gast.Star(gast.S(gast.L(";"), gast.Ref("Pair"))), gast.NotE(gast.Dot()))),
 			r("Pair", act(gast.S(gast.Lab("k", gast.Ref("Word")), gast.L("="), gast.Ref("Word")), 1)), r("Word", act(gast.Lab("w", gast.Plus(gast.Cl(gast.Chars("ab")))), 2))),
